@@ -340,7 +340,13 @@ func (rn *Runner) Run() {
 	}
 	// seeded byte noise
 	rng := rand.New(rand.NewSource(rn.Seed*104729 + int64(rn.T)))
-	for _, edits := range []int{1, 3, 8} {
+	noise := []int{1, 3, 8}
+	if os.Getenv("VERIF_TIER") == "thorough" { // forty mutations of every input instead of three
+		for k := 0; k < 37; k++ {
+			noise = append(noise, 1+k%9)
+		}
+	}
+	for ni, edits := range noise {
 		mut := append([]byte{}, text...)
 		for e := 0; e < edits && len(mut) > 0; e++ {
 			p := rng.Intn(len(mut))
@@ -359,7 +365,7 @@ func (rn *Runner) Run() {
 			}
 		}
 		m2 := mut
-		rn.emit("string", fmt.Sprintf("noise%d", edits), run(func() (*mail.Msg, error) { return mail.EMLToMsgFromString(string(m2)) }))
+		rn.emit("string", fmt.Sprintf("noise%d-%d", edits, ni), run(func() (*mail.Msg, error) { return mail.EMLToMsgFromString(string(m2)) }))
 	}
 	r.Emit("end", "t", rn.T)
 	r.Seal()
